@@ -267,12 +267,69 @@ def run_sample(ctx, kind, dlen, rlen, oplen, exclude):
     ctx.require(jl == want, 'sample:json', detail=dict(row, got=repr(jl)))
     # the whole JSON sample as the tool writes it, for several namespaces of
     # which some register nothing (names and check strings are concrete)
+    # the sample regenerated into a file that already holds an older, longer
+    # sample (a doc build run twice): the file is the new sample, nothing else
+    for seq in (('yaml', False, 'yaml', True), ('yaml', False, 'json', False),
+                ('json', False, 'yaml', True)):
+        prob = _regenerated(generator, policies, seq)
+        ctx.require(prob is None, 'sample:regenerated-into-existing-file',
+                    key='sample:regenerated:%s-%s' % (seq[0], seq[2]),
+                    detail=dict(row, sequence=list(seq), problem=prob))
     for layout in ('empty-first', 'empty-between', 'empty-last', 'only-empty'):
         got = _json_sample(generator, policies, layout)
         exp = {} if layout == 'only-empty' else want
         ctx.require(got == exp, 'sample:json-with-empty-namespace',
                     key='sample:json-with-empty-namespace:' + layout,
                     detail=dict(row, layout=layout, got=repr(got)[:300]))
+
+
+_REGEN = {}
+
+
+def _regenerated(generator, policies, seq):
+    """Generate (fmt1, exclude1) then (fmt2, exclude2) into ONE path and
+    (fmt2, exclude2) into a fresh path: the two files must be equal.  Names,
+    check strings and the concrete plain-text descriptions of the
+    non-symbolic defaults only (memoised: the inputs are concrete)."""
+    from unittest import mock
+    from oslo_policy import policy
+    if seq in _REGEN:
+        return _REGEN[seq]
+    dep = policy.DeprecatedRule('old:name', 'role:old',
+                                deprecated_reason='because ' * 12,
+                                deprecated_since='N')
+    ns = {'ns': [policy.RuleDefault('svc:a', 'role:a or role:b',
+                                    description='first ' * 30,
+                                    deprecated_rule=dep),
+                 policy.RuleDefault('svc:b', 'role:b', description='second'),
+                 policy.DocumentedRuleDefault(
+                     'svc:c', 'role:c', 'third ' * 20,
+                     [{'path': '/c', 'method': 'GET'}],
+                     deprecated_for_removal=True,
+                     deprecated_reason='going away ' * 8,
+                     deprecated_since='M')]}
+    env = common.Scratch()
+    try:
+        same, fresh = env.path('sample.out'), env.path('fresh.out')
+        with mock.patch('oslo_policy.generator.get_policies_dict') as gp:
+            gp.return_value = ns
+            try:
+                generator._generate_sample(['ns'], same, seq[0],
+                                           exclude_deprecated=seq[1])
+                generator._generate_sample(['ns'], same, seq[2],
+                                           exclude_deprecated=seq[3])
+                generator._generate_sample(['ns'], fresh, seq[2],
+                                           exclude_deprecated=seq[3])
+                a, b = open(same).read(), open(fresh).read()
+                prob = None if a == b else (
+                    'file holds %d characters, a fresh sample %d; tail: %r'
+                    % (len(a), len(b), a[len(b):][:80]))
+            except Exception as exc:
+                prob = 'raises %r' % (exc,)
+    finally:
+        env.close()
+    _REGEN[seq] = prob
+    return prob
 
 
 def _json_sample(generator, policies, layout):
